@@ -56,22 +56,48 @@ class OpTimeout(Exception):
 OP_DEADLINE_S = float(os.environ.get("VERIF_OP_DEADLINE_S", "30"))
 
 
-def _on_alarm(signum, frame):
-    raise OpTimeout(f"operation exceeded {OP_DEADLINE_S:.0f}s")
+class RunTimeout(BaseException):
+    """The whole simulated run (including post-hoc classification) exceeded its watchdog.  Derives
+    from BaseException so that it is never mistaken for a library outcome."""
+
+
+RUN_DEADLINE_S = float(os.environ.get("VERIF_RUN_DEADLINE_S", "240"))
 
 
 class deadline:
+    """Nestable SIGALRM watchdog (main thread only).  An inner deadline never extends an outer one."""
+
+    def __init__(self, seconds=None, exc=OpTimeout):
+        self.seconds = OP_DEADLINE_S if seconds is None else seconds
+        self.exc = exc
+
+    def _fire(self, signum, frame):
+        import time as _t
+        elapsed = _t.monotonic() - self.t0
+        if self.outer_remaining and elapsed >= self.outer_remaining - 0.01 and callable(self.prev_handler):
+            self.prev_handler(signum, frame)       # the enclosing deadline expired first
+            return
+        raise self.exc(f"exceeded {self.seconds:.0f}s")
+
     def __enter__(self):
+        import time as _t
         self.active = threading.current_thread() is threading.main_thread()
         if self.active:
-            self.old = signal.signal(signal.SIGALRM, _on_alarm)
-            signal.setitimer(signal.ITIMER_REAL, OP_DEADLINE_S)
+            self.t0 = _t.monotonic()
+            self.outer_remaining, _ = signal.getitimer(signal.ITIMER_REAL)
+            self.prev_handler = signal.signal(signal.SIGALRM, self._fire)
+            arm = self.seconds if not self.outer_remaining else min(self.seconds, self.outer_remaining)
+            signal.setitimer(signal.ITIMER_REAL, arm)
         return self
 
     def __exit__(self, *exc):
+        import time as _t
         if self.active:
             signal.setitimer(signal.ITIMER_REAL, 0)
-            signal.signal(signal.SIGALRM, self.old)
+            signal.signal(signal.SIGALRM, self.prev_handler)
+            if self.outer_remaining:
+                left = self.outer_remaining - (_t.monotonic() - self.t0)
+                signal.setitimer(signal.ITIMER_REAL, max(left, 0.001))
         return False
 
 
